@@ -5,7 +5,8 @@ Two case kinds, both on the real code with an in-memory SQLite database:
         the token table is dumped and goes, with the loaded token, to the Coq model (Persist/Model.v);
   wf  : a workflow graph (ports of the three built-in classes, scatter / gather / combinator steps with nested
         combinator trees, tokens on ports) is saved, loaded twice, deep-copied through WorkflowBuilder, one copy
-        is mutated, a third load follows.  Judged by the oracle only (no Coq model of steps and ports)."""
+        is mutated, a third load follows; the workflow / port / step / dependency tables are dumped and go, with
+        the loaded workflow, to the Coq model (Persist/WfModel.v)."""
 import copy
 import json
 
@@ -59,28 +60,138 @@ def tok_in_model(t):
     return k in ("term", "iter")
 
 
+def coq_smap(d):
+    return coq_list([f"({coq_str(k)}, {coq_str(v)})" for k, v in d.items()])
+
+
+def coq_strs(l):
+    return coq_list([coq_str(x) for x in l])
+
+
+def _ccls(name, depth, outs):
+    if name == "DotProductCombinator":
+        return "CDot"
+    if name == "CartesianProductCombinator":
+        return f"(CCart {coq_Z(depth)})"
+    if name == "LoopCombinator":
+        return "CLoop"
+    if name == "LoopTerminationCombinator":
+        return f"(CLoopTerm {coq_strs(outs)})"
+    return None
+
+
+def coq_pcomb(c):
+    """from the harness dump of an in-memory combinator"""
+    cls = _ccls(c["cls"], c.get("depth"), c.get("out"))
+    subs = [coq_pcomb(x) for x in c["sub"].values()]
+    if cls is None or any(x is None for x in subs):
+        return None
+    return (f"(PComb {cls} {coq_str(c['name'])} {coq_strs(c['items'])} {coq_smap(c['map'])} "
+            f"{coq_strs(list(c['sub']))} {coq_list(subs)})")
+
+
+def coq_dcomb(j):
+    """from the JSON stored in a step row"""
+    try:
+        pr = j["params"]
+        cls = _ccls(j["type"].rsplit(".", 1)[-1], pr.get("depth"), pr.get("output_items"))
+        subs = [coq_dcomb(x) for x in pr["combinators"].values()]
+        if cls is None or any(x is None for x in subs):
+            return None
+        return (f"(DComb {cls} {coq_str(pr['name'])} {coq_nat(pr['workflow'])} {coq_strs(pr['items'])} "
+                f"{coq_smap(pr['combinators_map'])} {coq_strs(list(pr['combinators']))} {coq_list(subs)})")
+    except (KeyError, TypeError, AttributeError, AssertionError):
+        return None
+
+
+def coq_pwf(d):
+    """from the harness dump of an in-memory workflow"""
+    steps = []
+    for st in d["steps"].values():
+        if st["cls"] == "ScatterStep":
+            k = "KScatter"
+        elif st["cls"] == "GatherStep":
+            k = f"(KGather {coq_Z(st['depth'])})"
+        elif st["cls"] == "CombinatorStep":
+            c = coq_pcomb(st["comb"])
+            if c is None:
+                return None
+            k = f"(KComb {c})"
+        else:
+            return None
+        steps.append(f"(mkstep {coq_str(st['name'])} {k} {coq_Z(st['status'])} {coq_smap(st['in'])} {coq_smap(st['out'])})")
+    ports = [f"(mkport {coq_str(p['name'])} {coq_str(p['fcls'])})" for p in d["ports"].values()]
+    if not json_ok(d["config"]):
+        return None
+    return (f"(mkwf {coq_str(d['name'])} {coq_jv(d['config'])} {coq_smap(d['input_ports'])} "
+            f"{coq_smap(d['output_ports'])} {coq_list(ports)} {coq_list(steps)})")
+
+
+def coq_wdb(t):
+    """from the SQL dump of the four tables"""
+    try:
+        wf, po, st, de = [], [], [], []
+        for i, (rid, name, params, status, typ) in enumerate(t["workflow"]):
+            if rid != i + 1 or not json_ok(params["config"]):
+                return None
+            wf.append(f"(mkwrow {coq_str(name)} {coq_jv(params['config'])} {coq_smap(params.get('input_ports', {}))} "
+                      f"{coq_smap(params['output_ports'])})")
+        for i, (rid, name, w, typ, params) in enumerate(t["port"]):
+            if rid != i + 1 or params != {}:
+                return None
+            po.append(f"(mkprow {coq_str(name)} {coq_nat(w)} {coq_str(typ)})")
+        for i, (rid, name, w, status, typ, params) in enumerate(t["step"]):
+            if rid != i + 1:
+                return None
+            cls = typ.rsplit(".", 1)[-1]
+            if cls == "ScatterStep":
+                dp = f"(DScatter {coq_nat(params['size_port'])})"
+            elif cls == "GatherStep":
+                dp = f"(DGather {coq_Z(params['depth'])} {coq_nat(params['size_port'])})"
+            elif cls == "CombinatorStep":
+                c = coq_dcomb(params["combinator"])
+                if c is None:
+                    return None
+                dp = f"(DCombP {c})"
+            else:
+                return None
+            st.append(f"(mksrow {coq_str(name)} {coq_nat(w)} {coq_Z(status)} {dp})")
+        for step, port, typ, name in t["dependency"]:
+            de.append(f"(mkdrow {coq_nat(step)} {coq_nat(port)} {coq_bool(typ == 0)} {coq_str(name)})")
+        return f"(mkwdb {coq_list(wf)} {coq_list(po)} {coq_list(st)} {coq_list(de)})"
+    except (KeyError, TypeError, AssertionError):
+        return None
+
+
 class C08(Prop):
     ID = "C08"
     PROPS_FILE = "Props/C08.v"
     CORR_MODULE = "Persist.Corr"
     MAX_WORKERS = 8
-    CASE_TIMEOUT = 120
+    CASE_TIMEOUT = 900      # generous: the machine is shared
+    SHARD_TIMEOUT = 3600
     COQ_SHARD = 60
     TECHNIQUE = ("Coq proof (nested induction over token trees; append-only table, fuel- and extension-monotone loader) "
                  "+ vm_compute correspondence on the real token table + property oracle on real save/load of workflows")
     LEVEL_TEXT = (
-        "Theorems (Coq, closed under the global context): load(save t) = t for every token tree of any depth and width "
-        "(Token with any JSON value, ListToken, ObjectToken, TerminationToken, IterationTerminationToken) on any prior "
-        "table contents; saving never changes what stored records load to; with the deep-copying getters a change inside "
-        "one handed-out row changes no other handed-out row, cached cell or stored record; refutation witness for the "
-        "pre-fix shallow copies. The model is tied to /repo on the token cases by running the model's loader on the rows "
-        "the real save wrote and comparing with the real load, and comparing the model's save with those rows up to id "
-        "renaming. Steps, ports, wiring, combinator trees and the WorkflowBuilder copy are NOT modelled: they are "
-        "exercised on the real code and judged by the property oracle only.")
-    LEVEL_NOTE = ("Partial: proof covers the token family and the database-layer part of independence; workflow graphs "
-                  "(steps/ports/combinators/builder copy) are oracle-tested only; JobToken, deployment/target/filter "
-                  "configurations and CWL entities are not covered. Trusted: Coq kernel + vm_compute; hand-written "
-                  "Persist/Model.v and DbCache/Model.v; SQLite/aiosqlite/json/asyncio. No axioms.")
+        "Theorems (Coq, closed under the global context): load(save w) = w for every workflow of the modelled classes "
+        "(name, config, input/output ports, ports of the generic classes, Scatter/Gather/Combinator steps with status, "
+        "wiring through the dependency table keyed by (step, port), combinator trees of any depth) in the domain ok_wf "
+        "(dict keys unique, every step refers to existing ports and to each under one name only) on every consistent "
+        "prior database; the WorkflowBuilder copy has the same structure with statuses reset; refutation witness for a "
+        "port used under two names by one step; load(save t) = t for every token tree of any depth and width (Token with "
+        "any JSON value, ListToken, ObjectToken, TerminationToken, IterationTerminationToken) on any prior table; saving "
+        "never changes what stored records load to; with the deep-copying getters a change inside one handed-out row "
+        "changes no other handed-out row, cached cell or stored record; refutation witness for the pre-fix shallow "
+        "copies. Tied to /repo on every case: the model's loaders run on the rows the real save wrote and are compared "
+        "with the real load; the model's saves are compared with those rows (ids renamed for tokens, steps matched by "
+        "name). Other step/port classes, JobToken, deployment/target/filter configurations, CWL entities and the "
+        "absence of persistent ids in the builder copy are NOT modelled (the last one is judged by the oracle).")
+    LEVEL_NOTE = ("Partial: the workflow theorem covers Scatter/Gather/Combinator steps and parameterless ports; dict and "
+                  "row order and the interleaving of concurrent INSERTs are abstracted (compared as maps/sets); "
+                  "independence is proved at the database layer only (object construction from rows is exercised, not "
+                  "modelled). Trusted: Coq kernel + vm_compute; hand-written Persist/WfModel.v, Persist/Model.v and "
+                  "DbCache/Model.v; SQLite/aiosqlite/json/asyncio. No axioms.")
     RULE = ("tok: random token trees (depth<=4, width<=4, JSON values incl. unicode, nested containers, empty "
             "containers, all five classes); wf: random graphs of 1-6 ports and 0-5 steps (scatter, gather with depth, "
             "combinator steps with nested dot/cartesian/loop/loop-termination trees), tokens on ports, output ports, "
@@ -90,7 +201,8 @@ class C08(Prop):
                "token table) is hand-written; SQLite, aiosqlite, json, asyncio.gather ordering are not verified",)
     ASSUMPTIONS = ("token trees share no token object between two containers",
                    "JSON values without floats/NaN; dict keys are strings (JSON itself does not round-trip others)",
-                   "steps/ports/combinators: tested, not proved")
+                   "a step refers to a port under one name only (known finding otherwise; replayed from the corpus)",
+                   "step classes other than Scatter/Gather/Combinator and port classes with parameters: not covered")
 
     # ---------------------------------------------------------------- generation
     def _str(self, rng):
@@ -174,7 +286,7 @@ class C08(Prop):
             steps.append(st)
         toks = [{"port": rng.randrange(nports), "t": self._tok(rng, 1)} for _ in range(rng.randrange(0, 4))]
         outp = {self._str(rng): f"port{rng.randrange(nports)}" for _ in range(rng.randrange(0, 3))}
-        inp = {}     # Workflow.input_ports is not persisted: known finding, replayed from the corpus
+        inp = {self._str(rng): f"port{rng.randrange(nports)}" for _ in range(rng.randrange(0, 3))}
         return {"f": "wf", "name": rng.choice(["wf", "w é", "/a/b"]), "config": {"cfg": self._json(rng), "l": [self._json(rng)]},
                 "ports": ports, "steps": steps, "tokens": toks, "output_ports": outp, "input_ports": inp}
 
@@ -286,6 +398,24 @@ class C08(Prop):
         finally:
             await ctx.database.close()
 
+    async def _tables(self, ctx):
+        qs = {"workflow": "SELECT id, name, params, status, type FROM workflow ORDER BY id",
+              "port": "SELECT id, name, workflow, type, params FROM port ORDER BY id",
+              "step": "SELECT id, name, workflow, status, type, params FROM step ORDER BY id",
+              "dependency": "SELECT step, port, type, name FROM dependency"}
+        out = {}
+        async with ctx.database.connection as db:
+            for t, q in qs.items():
+                async with db.execute(q) as cur:
+                    out[t] = [list(r) for r in await cur.fetchall()]
+        for r in out["workflow"]:
+            r[2] = json.loads(r[2])
+        for r in out["port"]:
+            r[4] = json.loads(r[4])
+        for r in out["step"]:
+            r[5] = json.loads(r[5])
+        return out
+
     # -- workflows
     def _mk_comb(self, c, wf):
         cm = self.m["comb"]
@@ -321,7 +451,8 @@ class C08(Prop):
             if ids:
                 d["has_id"] = s.persistent_id is not None
             steps[n] = d
-        ports = {n: {"cls": type(p).__name__, "name": p.name, "wf_is_this": p.workflow is wf,
+        ports = {n: {"cls": type(p).__name__, "fcls": self.m["utils"].get_class_fullname(type(p)), "name": p.name,
+                     "wf_is_this": p.workflow is wf,
                      **({"has_id": p.persistent_id is not None} if ids else {})} for n, p in wf.ports.items()}
         return {"name": wf.name, "config": copy.deepcopy(wf.config), "output_ports": dict(wf.output_ports),
                 "input_ports": dict(wf.input_ports), "steps": steps, "ports": ports,
@@ -353,6 +484,7 @@ class C08(Prop):
             wf.output_ports = dict(case["output_ports"])
             wf.input_ports = dict(case["input_ports"])
             await wf.save(ctx.database)
+            tables = await self._tables(ctx)
             toks = []
             for t in case["tokens"]:
                 tok = self._mk_tok(t["t"])
@@ -362,7 +494,7 @@ class C08(Prop):
             l1 = await m["DLC"](ctx.database).load_workflow(wid)
             l2 = await m["DLC"](ctx.database).load_workflow(wid)
             cp = await m["WB"](ctx.database, deep_copy=True).load_workflow(wid)
-            o = {"orig": self._dump_wf(wf), "l1": self._dump_wf(l1), "l2": self._dump_wf(l2),
+            o = {"tables": tables, "wid": wid, "orig": self._dump_wf(wf), "l1": self._dump_wf(l1), "l2": self._dump_wf(l2),
                  "copy": self._dump_wf(cp, ids=False),
                  "copy_ids": [x.persistent_id for x in [cp, *cp.ports.values(), *cp.steps.values()]
                               if x.persistent_id is not None],
@@ -498,13 +630,20 @@ class C08(Prop):
         return coq_list(out)
 
     def coq_case(self, case, o):
+        if case["f"] == "wf":
+            if "tables" not in o:
+                return None
+            orig, db = coq_pwf(o["orig"]), coq_wdb(o["tables"])
+            if orig is None or db is None:
+                return None
+            return f"XWf (CWf {orig} {db} {coq_nat(o['wid'])} {coq_opt(coq_pwf(o['l1']), lambda x: x)})"
         if case["f"] != "tok" or "rows" not in o or not tok_in_model(case["t"]):
             return None
         rows = self._coq_rows(o["rows"])
         if rows is None:
             return None
         loaded = o["l1"] if tok_in_model(o["l1"]) else None
-        return f"CTok {coq_ptok(case['t'])} {rows} {coq_nat(o['root'])} {coq_opt(loaded, coq_ptok)}"
+        return f"XTok (CTok {coq_ptok(case['t'])} {rows} {coq_nat(o['root'])} {coq_opt(loaded, coq_ptok)})"
 
     def nontrivial(self, case):
         if case["f"] == "tok":
